@@ -29,6 +29,7 @@ CODE_SIG = {
     5: ("diagnostic-quotes-another-line", "the line quoted by the diagnostic is not that line of that file"),
     6: ("fault-reported-at-wrong-position", "a planted fault was not reported at exactly its own file and line with its include chain (position and chain are compared, not the wording)"),
     7: ("fault-not-reported", "an invalid clause / missing include / unterminated continuation was accepted"),
+    9: ("valid-include-graph-refused", "files made of titles, comments and resolvable includes nested at most ten deep must be read through, but the reader refuses them"),
     8: ("include-chain-unreadable", "the include chain of the diagnostic is not a list of <file>:<line> entries"),
 }
 
@@ -104,7 +105,7 @@ def run(tier, seed):
         "evaluations": summary["evaluations"],
         "distinct_nontrivial": summary["distinct_nontrivial"],
         "exhaustive": False,
-        "rule": "streams: (1) grammar-derived valid configurations covering every clause kind of the manual (see clause_kinds; cast multiplicities 1-12, zero and negative, written out or through a parameter), laid out over files with includes (sibling, sub-directory, -I only, by path), continuations, comments, odd indentation, missing final newline; (2) the same with ONE fault at a position the generator knows (bogus clause, missing include, one undefined parameter, three or more undefined parameters in one clause, unterminated continuation, include of a directory) — oracle = rejected at exactly that file, line and include chain (the message wording is not judged); (3) 1-3 random mutations of (1) (delete/swap/duplicate bytes and lines, truncate, backslash at line end, spliced keywords and odd bytes); (4) arbitrary bytes (all bytes / printable / token soup / newline-backslash-tilde heavy); (5d) parameter values holding ~name~ tokens — themselves, cycles of 2-3, undefined names, chains — from -D and from defaults, used in a later title / attention / with / expression / include / repeat time / author; (5e) storylines, edit results and repeat-from patterns holding multi-byte runes whose low byte or whose UTF-8 bytes equal defined scene letters (also single-byte Latin-1 scene shorthands); one in three include graphs and one in four planted faults with a percent sign in file and directory names (percent-s, percent-d, 100-percent, percent-20) of main, included and -I paths; (5f) the real standard-input path: the configuration is `-` or a file says `include -`, with the text on the child's stdin — valid configurations and one planted fault each, judged by the position / quoted-line / no-crash oracle (the Coq model takes stdin as empty, so these cases are not compared with it); (5b) cast multiplicities from a list of boundary values (most negative int64 .. 40, signs, non-numbers; bounded above), direct / default / -D; (5) include graphs (chains to depth 12, diamonds, self/mutual/3-cycles, directories, missing files, -I only, shadowing, `..`) with the reference reading order computed by an independent recursive expander; (6) the reader alone, every logical line with position and include chain compared exactly; (5c) the space characters on which the regexp classes and strings.TrimSpace disagree (U+000B, 0085, 00A0, 1680, 2000-200A, 2028, 2029, 202F, 205F, 3000) written instead of / before / after / twice / as separator of ONE token of a valid configuration, every scene shorthand x every character exhaustively; (7) the `edit` splitter on structured and random commands; (8) `scene TOKEN mood starts red` for all 256 single bytes and those runes, compared with the model of validateShorthand (exhaustive); corpus of past failures first. Every experiment runs in a CHILD process (the harness re-executed with -child, gob over pipes) under a %ds watchdog, a 1 GiB heap limit (and an address-space cap) and recover(): a case that kills the process (stack overflow, os.Exit) or hangs is attributed to itself, the child is replaced; rendering the diagnostic (RenderError and Error()) is part of every case. distinct_nontrivial = distinct (file set, -D list) with at least 8 bytes of input, counted by content." % 10,
+        "rule": "streams: (1) grammar-derived valid configurations covering every clause kind of the manual (see clause_kinds; cast multiplicities 1-12, zero and negative, written out or through a parameter), laid out over files with includes (sibling, sub-directory, -I only, by path), continuations, comments, odd indentation, missing final newline; (2) the same with ONE fault at a position the generator knows (bogus clause, missing include, one undefined parameter, three or more undefined parameters in one clause, unterminated continuation, include of a directory) — oracle = rejected at exactly that file, line and include chain (the message wording is not judged); (3) 1-3 random mutations of (1) (delete/swap/duplicate bytes and lines, truncate, backslash at line end, spliced keywords and odd bytes); (4) arbitrary bytes (all bytes / printable / token soup / newline-backslash-tilde heavy); (5d) parameter values holding ~name~ tokens — themselves, cycles of 2-3, undefined names, chains — from -D and from defaults, used in a later title / attention / with / expression / include / repeat time / author; (5e) storylines, edit results and repeat-from patterns holding multi-byte runes whose low byte or whose UTF-8 bytes equal defined scene letters (also single-byte Latin-1 scene shorthands); one in three include graphs and one in four planted faults with a percent sign in file and directory names (percent-s, percent-d, 100-percent, percent-20) of main, included and -I paths; (5f) the real standard-input path: the configuration is `-` or a file says `include -`, with the text on the child's stdin — valid configurations and one planted fault each, judged by the position / quoted-line / no-crash oracle (the Coq model takes stdin as empty, so these cases are not compared with it); (5b) cast multiplicities from a list of boundary values (most negative int64 .. 40, signs, non-numbers; bounded above), direct / default / -D; (5) include graphs, refused ones judged by position and chain, readable ones (titles, comments, resolvable includes nested at most ten deep — 10/12/25 sequential includes, combs, names starting with `/`) required to be read through (chains to depth 12, diamonds, self/mutual/3-cycles, directories, missing files, -I only, shadowing, `..`) with the reference reading order computed by an independent recursive expander; (6) the reader alone, every logical line with position and include chain compared exactly; (5c) the space characters on which the regexp classes and strings.TrimSpace disagree (U+000B, 0085, 00A0, 1680, 2000-200A, 2028, 2029, 202F, 205F, 3000) written instead of / before / after / twice / as separator of ONE token of a valid configuration, every scene shorthand x every character exhaustively; (7) the `edit` splitter on structured and random commands; (8) `scene TOKEN mood starts red` for all 256 single bytes and those runes, compared with the model of validateShorthand (exhaustive); corpus of past failures first. Every experiment runs in a CHILD process (the harness re-executed with -child, gob over pipes) under a %ds watchdog, a 1 GiB heap limit (and an address-space cap) and recover(): a case that kills the process (stack overflow, os.Exit) or hangs is attributed to itself, the child is replaced; rendering the diagnostic (RenderError and Error()) is part of every case. distinct_nontrivial = distinct (file set, -D list) with at least 8 bytes of input, counted by content." % 10,
         "samples": summary["samples"],
         "distribution": {k: summary[k] for k in ("counts", "outcomes", "by_stream", "error_classes", "faults", "graph_shapes",
                                                   "clause_kinds", "grammar_texts_accepted", "grammar_texts_total",
